@@ -30,7 +30,7 @@ def main(tier, seed, replay=None):
         print("replay file records:", json.dumps(r, default=str)[:1500])
         return 1
     regen_all()
-    ok_make, log = coq_make(["Proofs/FrontendSound.vo"])
+    ok_make, log = coq_make(["Proofs/FrontendSound.vo", "Proofs/SplitComposite.vo"])
     pr = check_props(PROP) if ok_make else {"ok": False, "obligations": [
         {"name": "C15_*", "closed": False, "axioms": ["<does not compile>"], "ok": False}], "log": log[-3000:]}
     rep.obligations(pr, "make Proofs/FrontendSound.vo && coqc -R coq CV coq/Props/C15.v (Print Assumptions)")
